@@ -1,12 +1,15 @@
-(* Proofs/C16FirstWeekday.v — first_of / last_of / nth_of(.., 1, ..) read calendar.monthcalendar, whose layout follows the
-   process-wide calendar.setfirstweekday(fw); the helpers index a row with the requested weekday as if fw were 0.
-   Closed form: under firstweekday fw the helpers answer for weekday (wd + fw) mod 7 — right iff fw = 0 (finding
-   calendar-firstweekday); next/previous and nth_of with n >= 2 never read the calendar. *)
+(* Proofs/C16FirstWeekday.v — first_of / last_of / nth_of(.., 1, ..) under a process-wide calendar.setfirstweekday(fw).
+   The month helpers build calendar.Calendar(calendar.MONDAY) themselves, so the layout they index with the requested weekday
+   starts on Monday whatever fw is: for EVERY configured first weekday the methods are the Date functions of Model/Weekday.v,
+   and every theorem of Proofs/C16Facts.v holds under every configuration.  (Finding calendar-firstweekday, now fixed: the
+   helpers used to read calendar.monthcalendar, laid out from weekday fw, and answered for weekday (wd + fw) mod 7.)
+   next/previous and nth_of with n >= 2 never read a calendar. *)
 From Coq Require Import ZArith List Bool Lia ZifyBool.
 From PV Require Import Lib.PyBase Spec.Cal Proofs.CalFacts Gen.DateGetters Model.Weekday Model.WeekdayZone Proofs.C16Facts.
 Ltac Zify.zify_post_hook ::= Z.to_euclidean_division_equations.
 Open Scope Z_scope.
 
+(* ---- the calendar model: calendar.Calendar(fw).monthdayscalendar ---- *)
 Lemma mc_first_fw_range fw y m : 0 <= mc_first_fw fw y m <= 6.
 Proof. unfold mc_first_fw. lia. Qed.
 
@@ -54,114 +57,62 @@ Proof.
   - right. split; repeat match goal with |- context [if ?c then _ else _] => destruct c eqn:? end; try lia; f_equal; lia.
 Qed.
 
-Lemma fw_first_of_month_some fw p wd : wf_date p -> 0 <= wd <= 6 ->
-  fw_first_of_month fw p (Some wd) = Ok (mkdate (d_year p) (d_month p) (1 + (wd - mc_first_fw fw (d_year p) (d_month p)) mod 7)).
+(* calendar.Calendar(calendar.MONDAY).monthdayscalendar is the calendar of Model/Weekday.v *)
+Lemma mc_get_monday y m i c : mc_get_fw CAL_MONDAY y m i c = mc_get y m i c.
+Proof. exact (mc_get_fw_0 y m i c). Qed.
+
+(* ---- the month helpers do not depend on the configuration ---- *)
+Lemma fw_first_of_month_any fw p o : fw_first_of_month fw p o = d_first_of_month p o.
 Proof.
-  intros Hp Hwd. destruct (wf_fields p Hp) as (Hy & Hm & Hd).
-  pose proof (dim_bounds (d_year p) (d_month p)) as Hdim.
-  destruct (fw_first_rows fw (d_year p) (d_month p) wd Hwd) as [Hday [(c0 & E0 & G0 & Ec)|[E0 E1]]];
-  unfold fw_first_of_month; rewrite E0; cbn [bind].
-  - rewrite G0. subst c0. unfold date_set_day. apply date_new_ok; lia.
-  - change (0 >? 0) with false. cbv iota. rewrite E1. cbn [bind]. unfold date_set_day. apply date_new_ok; lia.
+  destruct o as [wd|]; [|reflexivity]. unfold fw_first_of_month, d_first_of_month.
+  rewrite !mc_get_monday. reflexivity.
 Qed.
 
-Lemma fw_last_of_month_some fw p wd : wf_date p -> 0 <= wd <= 6 ->
-  let dm := dim (d_year p) (d_month p) in
-  fw_last_of_month fw p (Some wd) = Ok (mkdate (d_year p) (d_month p) (dm - ((mc_first_fw fw (d_year p) (d_month p) + dm - 1) - wd) mod 7)).
+Lemma fw_last_of_month_any fw p o : fw_last_of_month fw p o = d_last_of_month p o.
 Proof.
-  intros Hp Hwd. destruct (wf_fields p Hp) as (Hy & Hm & Hd).
-  pose proof (dim_bounds (d_year p) (d_month p)) as Hdim. cbv zeta.
-  destruct (fw_last_rows fw (d_year p) (d_month p) wd Hwd) as [Hday [(c0 & E0 & G0 & Ec)|[E0 E1]]];
-  unfold fw_last_of_month; rewrite E0; cbn [bind].
-  - rewrite G0. subst c0. unfold date_set_day. apply date_new_ok; lia.
-  - change (0 >? 0) with false. cbv iota. rewrite E1. cbn [bind]. unfold date_set_day. apply date_new_ok; lia.
+  destruct o as [wd|]; [|reflexivity]. unfold fw_last_of_month, d_last_of_month.
+  rewrite !mc_get_monday. reflexivity.
 Qed.
 
-(* the month helpers under firstweekday fw answer for weekday (wd + fw) mod 7 *)
-Lemma fw_first_of_month_shift fw p o : wf_date p -> 0 <= fw <= 6 -> owd_ok o ->
-  fw_first_of_month fw p o = d_first_of_month p (option_map (fun wd => (wd + fw) mod 7) o).
+(* for every configured first weekday (indeed every integer) first_of / last_of are the Date functions: no hypothesis *)
+Theorem fw_first_of_any fw u p o : fw_first_of fw u p o = d_first_of u p o.
 Proof.
-  intros Hp Hfw Ho. destruct o as [wd|]; [|reflexivity]. cbn [option_map]. cbn [owd_ok] in Ho. unfold valid_wd in Ho.
-  rewrite fw_first_of_month_some by assumption. rewrite d_first_of_month_some by (try assumption; lia).
-  do 2 f_equal. unfold mc_first_fw, mc_first.
-  pose proof (weekday0_range (ymd2ord (d_year p) (d_month p) 1)). lia.
-Qed.
-
-Lemma fw_last_of_month_shift fw p o : wf_date p -> 0 <= fw <= 6 -> owd_ok o ->
-  fw_last_of_month fw p o = d_last_of_month p (option_map (fun wd => (wd + fw) mod 7) o).
-Proof.
-  intros Hp Hfw Ho. destruct o as [wd|]; [|reflexivity]. cbn [option_map]. cbn [owd_ok] in Ho. unfold valid_wd in Ho.
-  pose proof (fw_last_of_month_some fw p wd Hp Ho) as A. cbv zeta in A. rewrite A.
-  pose proof (d_last_of_month_some p ((wd + fw) mod 7) Hp ltac:(lia)) as B. cbv zeta in B. rewrite B.
-  do 2 f_equal. unfold mc_first_fw, mc_first.
-  pose proof (weekday0_range (ymd2ord (d_year p) (d_month p) 1)).
-  pose proof (dim_bounds (d_year p) (d_month p)). lia.
-Qed.
-
-Lemma date_new_wf' y m d q : date_new y m d = Ok q -> wf_date q.
-Proof.
-  unfold date_new. destruct ((1 <=? y) && (y <=? 9999) && valid_dateb y m d) eqn:E; [|discriminate].
-  intros H. inversion H. apply andb_true_iff in E. destruct E as [E1 E2]. split; cbn [d_year d_month d_day]; [exact E2|lia].
-Qed.
-
-Theorem fw_first_of_shift fw u p o : wf_date p -> 0 <= fw <= 6 -> owd_ok o ->
-  fw_first_of fw u p o = d_first_of u p (option_map (fun wd => (wd + fw) mod 7) o).
-Proof.
-  intros Hp Hfw Ho. unfold fw_first_of, d_first_of, d_first_of_quarter, d_first_of_year, date_set_ymd, date_set_month.
-  destruct (u =? U_MONTH); [now apply fw_first_of_month_shift|].
+  unfold fw_first_of, d_first_of, d_first_of_quarter, d_first_of_year.
+  destruct (u =? U_MONTH); [apply fw_first_of_month_any|].
   destruct (u =? U_QUARTER).
-  { destruct (date_new _ _ _) as [q|e] eqn:E; cbn [bind]; [|reflexivity].
-    apply fw_first_of_month_shift; try assumption. eapply date_new_wf'; eassumption. }
+  { destruct (date_set_ymd _ _ _ _) as [q|e]; cbn [bind]; [apply fw_first_of_month_any|reflexivity]. }
   destruct (u =? U_YEAR); [|reflexivity].
-  destruct (date_new _ _ _) as [q|e] eqn:E; cbn [bind]; [|reflexivity].
-  apply fw_first_of_month_shift; try assumption. eapply date_new_wf'; eassumption.
+  destruct (date_set_month _ _) as [q|e]; cbn [bind]; [apply fw_first_of_month_any|reflexivity].
 Qed.
 
-Theorem fw_last_of_shift fw u p o : wf_date p -> 0 <= fw <= 6 -> owd_ok o ->
-  fw_last_of fw u p o = d_last_of u p (option_map (fun wd => (wd + fw) mod 7) o).
+Theorem fw_last_of_any fw u p o : fw_last_of fw u p o = d_last_of u p o.
 Proof.
-  intros Hp Hfw Ho. unfold fw_last_of, d_last_of, d_last_of_quarter, d_last_of_year, date_set_ymd, date_set_month.
-  destruct (u =? U_MONTH); [now apply fw_last_of_month_shift|].
+  unfold fw_last_of, d_last_of, d_last_of_quarter, d_last_of_year.
+  destruct (u =? U_MONTH); [apply fw_last_of_month_any|].
   destruct (u =? U_QUARTER).
-  { destruct (date_new _ _ _) as [q|e] eqn:E; cbn [bind]; [|reflexivity].
-    apply fw_last_of_month_shift; try assumption. eapply date_new_wf'; eassumption. }
+  { destruct (date_set_ymd _ _ _ _) as [q|e]; cbn [bind]; [apply fw_last_of_month_any|reflexivity]. }
   destruct (u =? U_YEAR); [|reflexivity].
-  destruct (date_new _ _ _) as [q|e] eqn:E; cbn [bind]; [|reflexivity].
-  apply fw_last_of_month_shift; try assumption. eapply date_new_wf'; eassumption.
+  destruct (date_set_month _ _) as [q|e]; cbn [bind]; [apply fw_last_of_month_any|reflexivity].
 Qed.
 
-(* the region where the property holds: the default configuration *)
-Theorem fw_first_of_default u p o : wf_date p -> owd_ok o -> fw_first_of 0 u p o = d_first_of u p o.
-Proof.
-  intros Hp Ho. rewrite fw_first_of_shift by (try assumption; lia). f_equal.
-  destruct o as [wd|]; [|reflexivity]. cbn [option_map]. cbn [owd_ok] in Ho. unfold valid_wd in Ho. f_equal. lia.
-Qed.
-
-Theorem fw_last_of_default u p o : wf_date p -> owd_ok o -> fw_last_of 0 u p o = d_last_of u p o.
-Proof.
-  intros Hp Ho. rewrite fw_last_of_shift by (try assumption; lia). f_equal.
-  destruct o as [wd|]; [|reflexivity]. cbn [option_map]. cbn [owd_ok] in Ho. unfold valid_wd in Ho. f_equal. lia.
-Qed.
-
-(* nth_of: only the first occurrence is looked up in the calendar; from the second on the configuration is irrelevant *)
+(* nth_of: only the first occurrence is looked up in a calendar *)
 Theorem fw_nth_of_from_second fw u p n wd : n <> 1 -> fw_nth_of fw u p n wd = d_nth_of u p n wd.
 Proof. intros Hn. unfold fw_nth_of. destruct (n =? 1) eqn:E; [lia|reflexivity]. Qed.
 
-Theorem fw_nth_of_first fw u p wd : is_unit u -> wf_date p -> 0 <= fw <= 6 -> valid_wd wd ->
-  fw_nth_of fw u p 1 wd = d_first_of u p (Some ((wd + fw) mod 7)).
+Theorem fw_nth_of_first fw u p wd : is_unit u ->
+  fw_nth_of fw u p 1 wd = d_first_of u p (Some wd).
 Proof.
-  intros Hu Hp Hfw Hwd. unfold fw_nth_of. change (1 =? 1) with true. cbv iota.
+  intros Hu. unfold fw_nth_of. change (1 =? 1) with true. cbv iota.
   assert (E : (u =? U_MONTH) || (u =? U_QUARTER) || (u =? U_YEAR) = true).
   { destruct Hu as [->|[->| ->]]; reflexivity. }
-  rewrite E. now rewrite fw_first_of_shift.
+  rewrite E. apply fw_first_of_any.
 Qed.
 
-Theorem fw_nth_of_default u p n wd : is_unit u -> wf_date p -> valid_wd wd -> 1 <= n ->
-  fw_nth_of 0 u p n wd = d_nth_of u p n wd.
+Theorem fw_nth_of_any fw u p n wd : is_unit u -> wf_date p -> valid_wd wd -> 1 <= n ->
+  fw_nth_of fw u p n wd = d_nth_of u p n wd.
 Proof.
   intros Hu Hp Hwd Hn. destruct (Z.eq_dec n 1) as [->|N]; [|now apply fw_nth_of_from_second].
-  rewrite fw_nth_of_first by (try assumption; lia).
-  replace ((wd + 0) mod 7) with wd by (unfold valid_wd in Hwd; lia).
+  rewrite fw_nth_of_first by assumption.
   unfold d_nth_of.
   assert (G : forall body : result pdate,
      bind (overflow_to_none (bind body (fun r => Ok (Some r)))) (fun o => match o with Some d => Ok d | None => Raise E_PendulumException end)
@@ -174,35 +125,40 @@ Proof.
     destruct (d_first_of _ p (Some wd)) as [q|e]; try reflexivity; destruct e; try reflexivity; congruence.
 Qed.
 
-(* the finding: with the week starting on Sunday (calendar.setfirstweekday(6), the usual US setting) the "first Monday"
-   of May 2024 is reported as Sunday 5 May *)
-Theorem first_of_under_firstweekday_refuted :
-  exists fw p wd r, 0 <= fw <= 6 /\ wf_date p /\ valid_wd wd /\
-    fw_first_of fw U_MONTH p (Some wd) = Ok r /\ dow r <> wd /\
-    d_first_of U_MONTH p (Some wd) <> Ok r.
+(* ---- the property under every configuration: the statements of C16Facts carried over ---- *)
+Theorem fw_first_of_least fw u p wd : is_unit u -> wf_date p -> valid_wd wd ->
+  exists q, fw_first_of fw u p (Some wd) = Ok q /\ wf_date q /\ in_unit u p q /\ dow q = wd /\
+            date_ord q = unit_start u p + (wd - weekday0 (unit_start u p)) mod 7 /\
+            (forall q', wf_date q' -> in_unit u p q' -> dow q' = wd -> date_ord q <= date_ord q').
+Proof. rewrite fw_first_of_any. apply first_of_least. Qed.
+
+Theorem fw_last_of_greatest fw u p wd : is_unit u -> wf_date p -> valid_wd wd ->
+  exists q, fw_last_of fw u p (Some wd) = Ok q /\ wf_date q /\ in_unit u p q /\ dow q = wd /\
+            date_ord q = unit_end u p - (weekday0 (unit_end u p) - wd) mod 7 /\
+            (forall q', wf_date q' -> in_unit u p q' -> dow q' = wd -> date_ord q' <= date_ord q).
+Proof. rewrite fw_last_of_any. apply last_of_greatest. Qed.
+
+(* the weekday actually served is the one asked for *)
+Theorem fw_first_of_weekday fw u p wd r : is_unit u -> wf_date p -> valid_wd wd ->
+  fw_first_of fw u p (Some wd) = Ok r -> dow r = wd.
 Proof.
-  exists 6, (mkdate 2024 5 17), 0, (mkdate 2024 5 5).
-  split; [lia|]. split; [split; [reflexivity|cbn; lia]|]. split; [unfold valid_wd; lia|].
-  split; [vm_compute; reflexivity|]. split; vm_compute; discriminate.
+  intros Hu Hp Hwd H. destruct (fw_first_of_least fw u p wd Hu Hp Hwd) as (q & E & _ & _ & D & _).
+  rewrite E in H. inversion H. subst r. exact D.
 Qed.
 
-Theorem last_of_under_firstweekday_refuted :
-  exists fw p wd r, 0 <= fw <= 6 /\ wf_date p /\ valid_wd wd /\
-    fw_last_of fw U_YEAR p (Some wd) = Ok r /\ dow r <> wd.
+Theorem fw_last_of_weekday fw u p wd r : is_unit u -> wf_date p -> valid_wd wd ->
+  fw_last_of fw u p (Some wd) = Ok r -> dow r = wd.
 Proof.
-  exists 6, (mkdate 2024 5 17), 6, (mkdate 2024 12 28).
-  split; [lia|]. split; [split; [reflexivity|cbn; lia]|]. split; [unfold valid_wd; lia|].
-  split; [vm_compute; reflexivity|]. vm_compute; discriminate.
+  intros Hu Hp Hwd H. destruct (fw_last_of_greatest fw u p wd Hu Hp Hwd) as (q & E & _ & _ & D & _).
+  rewrite E in H. inversion H. subst r. exact D.
 Qed.
 
-(* the answer under fw is right exactly when it is the answer for the default: the weekday actually served *)
-Theorem fw_first_of_weekday fw u p wd r : is_unit u -> wf_date p -> 0 <= fw <= 6 -> valid_wd wd ->
-  fw_first_of fw u p (Some wd) = Ok r -> dow r = (wd + fw) mod 7.
-Proof.
-  intros Hu Hp Hfw Hwd H. rewrite fw_first_of_shift in H by (try assumption; exact Hwd). cbn [option_map] in H.
-  assert (Hw : 0 <= (wd + fw) mod 7 <= 6) by lia.
-  rewrite d_first_of_some in H by assumption. inversion H.
-  destruct (unit_start_range u p Hu Hp) as [[A B] [C D]]. pose proof (unit_span u p Hu Hp).
-  destruct (first_occ_props (unit_start u p) ((wd + fw) mod 7) Hw) as [X [Y _]].
-  subst r. rewrite dow_P by lia. exact Y.
-Qed.
+(* the former witnesses of the finding as ordinary instances: with the week starting on Sunday (calendar.setfirstweekday(6),
+   the usual US setting) the first Monday of May 2024 is Monday 6 May (was reported as Sunday 5 May), the last Sunday of
+   2024 is 29 December (was Saturday 28 December), and nth_of(.., 1, ..) agrees with first_of *)
+Theorem fw_former_witnesses :
+  fw_first_of 6 U_MONTH (mkdate 2024 5 17) (Some 0) = Ok (mkdate 2024 5 6) /\
+  fw_last_of 6 U_YEAR (mkdate 2024 5 17) (Some 6) = Ok (mkdate 2024 12 29) /\
+  fw_nth_of 6 U_MONTH (mkdate 2024 5 17) 1 0 = Ok (mkdate 2024 5 6) /\
+  dow (mkdate 2024 5 6) = 0 /\ dow (mkdate 2024 12 29) = 6.
+Proof. repeat split; vm_compute; reflexivity. Qed.
